@@ -20,6 +20,7 @@ type S struct {
 	Key       string `json:"key,omitempty"`
 	Unique    [][]string `json:"unique,omitempty"` // unique statements, each a set of descendant paths "a" or "c/a"
 	UniqVals  bool   `json:"uniqvals,omitempty"` // leaf takes values from {a,b}
+	Config    string `json:"config,omitempty"`   // "", "true", "false" (used by other harnesses; no influence on validation)
 	Kids      []*S   `json:"kids,omitempty"`
 }
 
@@ -28,6 +29,9 @@ func (s *S) yang() string {
 	switch s.Kind {
 	case "leaf":
 		fmt.Fprintf(&b, "leaf %s { type string;", s.Name)
+		if s.Config != "" {
+			fmt.Fprintf(&b, " config %s;", s.Config)
+		}
 		if s.Mandatory {
 			b.WriteString(" mandatory true;")
 		}
@@ -38,6 +42,9 @@ func (s *S) yang() string {
 		return b.String()
 	case "leaf-list":
 		fmt.Fprintf(&b, "leaf-list %s { type string;", s.Name)
+		if s.Config != "" {
+			fmt.Fprintf(&b, " config %s;", s.Config)
+		}
 		if s.Min > 0 {
 			fmt.Fprintf(&b, " min-elements %d;", s.Min)
 		}
@@ -48,6 +55,9 @@ func (s *S) yang() string {
 		return b.String()
 	}
 	fmt.Fprintf(&b, "%s %s {", s.Kind, s.Name)
+	if s.Config != "" && s.Kind != "case" {
+		fmt.Fprintf(&b, " config %s;", s.Config)
+	}
 	switch s.Kind {
 	case "container":
 		if s.Presence {
